@@ -25,10 +25,11 @@ ASSUMPTIONS = [
     "statistics 28-31 are taken in their implemented reading (step of two, intersected with records), see DESIGN §3",
 ]
 REQUIRED = ["named.checked", "listing.checked", "tools.distribution", "tools.preserved", "tools.transformed.nonempty", "tools.equidistributed",
-            "calls.Perm.count_inversions", "calls.Perm.holeyness", "calls.Perm.rtlmax_ltrmin_decomposition", "calls.Perm.cycle_decomp", "aliasing.mutated_results", "shortcuts.checked"]
+            "calls.Perm.count_inversions", "calls.Perm.holeyness", "calls.Perm.rtlmax_ltrmin_decomposition", "calls.Perm.cycle_decomp", "aliasing.mutated_results", "shortcuts.checked", "tool_faults.function_failed_once", "tool_faults.injected"]
 MIN_NONTRIVIAL = 3000
 CTX = None
 MON = None
+FAULTS = None
 
 
 def report(check, args, detail, known=None):
@@ -191,9 +192,14 @@ def setup(ctx):
             m.wrap_gen(Perm, name, make_done(name, oracle, normal), aliases=al)
         else:
             m.wrap(Perm, name, make_post(name, oracle, normal), aliases=al)
+    global FAULTS
+    import permuta.permutils.statistics as SM
+
+    FAULTS = monitor.FaultInjector(monitor.module_code_objects(SM, "statistics.py"))
 
 
 def teardown(ctx):
+    FAULTS.close()
     MON.uninstall()
 
 
@@ -376,6 +382,49 @@ def chk_shortcuts(ctx, p):
         report("shortcut", [p], f"symmetry_duplication yields {len(dup)} bijections / {len(got)} distinct, the 8 images of the bijection are {len(want)} distinct")
 
 
+def chk_tool_fault(ctx, basis, n, k):
+    """error path: a distribution query that is aborted (a statistic function that fails once / an exception arriving
+    at a failpoint inside the tool) must not change what later identical queries return"""
+    import permuta.permutils.statistics as SM
+
+    cls = Av([Perm(b) for b in basis]) if basis else None
+    members = [Perm(t) for t in sorted(avmodel.levels([tuple(b) for b in basis], n)[n])] if basis else [Perm(t) for t in C.all_perms(n)]
+    calls = {"n": 0, "armed": True}
+
+    def flaky(perm):
+        calls["n"] += 1
+        if calls["armed"] and calls["n"] == k:
+            raise RuntimeError("statistic failed once")
+        return perm.count_descents()
+
+    stat = PermutationStatistic("Number of descents (flaky once)", flaky)
+    try:
+        stat.distribution_for_length(n, cls)
+    except RuntimeError:
+        ctx.count("tool_faults.function_failed_once")
+    calls["armed"] = False
+    hist = collections.Counter(q.count_descents() for q in members)
+    want = [hist.get(v, 0) for v in range(max(hist, default=0) + 1)]
+    for attempt in (stat, PermutationStatistic("Number of descents (flaky once)", flaky), PermutationStatistic.get_by_index(3)):
+        got = attempt.distribution_for_length(n, cls)
+        ctx.ev()
+        if got != want:
+            report("toolfault", [basis, n, k], f"after an aborted query, distribution_for_length({n}) = {got} (sum {sum(got)}), histogram over the {len(members)} members = {want}")
+    # failpoint inside the tool itself, on a named statistic
+    idx = (k * 7) % len(PermutationStatistic._STATISTICS)
+    if PermutationStatistic._STATISTICS[idx][0].startswith("Holeyness"):
+        idx = 0
+    named = PermutationStatistic.get_by_index(idx)
+    if monitor.with_fault(FAULTS, k, lambda: named.distribution_for_length(n, cls)):
+        ctx.count("tool_faults.injected")
+    own = collections.Counter(named.func(q) for q in members)
+    want2 = [own.get(v, 0) for v in range(max(own, default=0) + 1)]
+    got2 = PermutationStatistic.get_by_index(idx).distribution_for_length(n, cls)
+    ctx.ev()
+    if got2 != want2:
+        report("toolfault", [basis, n, k], f"after an aborted query, {named.name!r} distribution at length {n} = {got2}, histogram = {want2}")
+
+
 def chk_equidistributed(ctx, b1, b2, n):
     c1, c2 = Av([Perm(b) for b in b1]), Av([Perm(b) for b in b2])
     l1, l2 = avmodel.levels([tuple(b) for b in b1], n), avmodel.levels([tuple(b) for b in b2], n)
@@ -403,7 +452,7 @@ def chk_equidistributed(ctx, b1, b2, n):
     ctx.nt(("equi", repr(b1), repr(b2), n))
 
 
-CHECKS = {"shortcut": chk_shortcuts, "method": chk_method, "perm": chk_perm, "distribution": chk_distribution, "bijection": chk_bijection, "equi": chk_equidistributed}
+CHECKS = {"toolfault": chk_tool_fault, "shortcut": chk_shortcuts, "method": chk_method, "perm": chk_perm, "distribution": chk_distribution, "bijection": chk_bijection, "equi": chk_equidistributed}
 
 
 def plan(tier, seed):
@@ -439,6 +488,8 @@ def run(ctx, spec):
         pairs = [([[0, 1, 2]], [[0, 2, 1]]), ([[0, 2, 1]], [[2, 0, 1]]), ([[0, 1, 2], [1, 0]], [[0, 1, 2], [1, 0]]), ([[1, 2, 0]], [[1, 0, 2]]),
                  ([[0, 1, 2, 3]], [[0, 1, 3, 2]]), ([[0, 2, 1], [0, 1, 2]], [[2, 1, 0], [1, 2, 0]]), ([[1, 3, 0, 2]], [[2, 0, 3, 1]]),
                  ([[0, 2, 1]], [[1, 2, 0]])]
+        for _ in range(6):
+            chk_tool_fault(ctx, rng.choice([None, [[0, 2, 1]], [[1, 2, 0]], [[0, 1, 2], [2, 1, 0, 3]]]), rng.randint(3, 5), rng.choice([1, 2, 3, 5, 9, 14, 40]))
         b1, b2 = pairs[part % len(pairs)]
         chk_equidistributed(ctx, b1, b2, 3)
         chk_equidistributed(ctx, b1, b2, 5)
